@@ -15,10 +15,33 @@ import os, re
 from vlib.core import sx, q
 
 PROP = "C08"
+
+
+def _listed():
+    """ids of the open C08 findings: the inputs that expose a defect class are generated only once the class is listed
+    (an unlisted `kf` verdict is an alarm by design; the class predicates and the judge do not depend on this)"""
+    try:
+        import json
+        from vlib import core as _core
+        d = json.load(open(_os.path.join(_core.ROOT, "known-findings.json")))
+        return {f["id"] for f in d.get("findings", []) if f.get("property") == "C08" and f.get("status", "open") == "open"}
+    except Exception:
+        return set()
+
+
+LISTED = _listed()
+ARRWILD = "array-pattern-item-then-wildcard" in LISTED
+GUARDASSIGN = "fsm-guard-arrow-reads-as-assignment" in LISTED
 MODE = "format"
 LEVEL = "proof"
 TRIVIAL_TAGS = []
-RULE = ("model-ext stream (second round): random well-formed programs with map literals, tuple-struct values, table literals (1-3 "
+RULE = ("model-fsm stream (third round): random well-formed programs with state machines: specification `#m(in<k>) ⇒ <k> :=` with "
+        "1-4 state definitions, implementation `#m(in) -> start` with 1-4 arms (1-3 transitions `->` `=>` `~>` each, or 1-3 "
+        "guards each with 1-3 transitions), patterns with expression leaves, tuples, tuple-structs and array patterns with "
+        "spread / rest, instance expressions `#m` / `#m(a, k: b)` as statement right-hand sides, matrix / set / tuple elements, "
+        "record / map values and call arguments, mixed with statements of the first two rounds; the state machines of "
+        "docs/reference/state-machine.mec and tests/interpreter.rs as fixed trees; "
+        "model-ext stream (second round): random well-formed programs with map literals, tuple-struct values, table literals (1-3 "
         "rows), comment statements, enum definitions, function definitions with match arms, match expressions with guards over "
         "all pattern forms (wildcard, literal, variable, tuple, enum variant, array with spread / rest), set and matrix "
         "comprehensions (generator, filter, let), mixed with first-round statements; "
@@ -43,15 +66,26 @@ ASSUMPTIONS = [
     "kind-annotated variable as a cell), match expressions `f? ├p, guard ⇒ e └* ⇒ e.` (source a factor) and set/matrix "
     "comprehensions (generator / let / filter qualifiers; a filter is a formula beginning with a variable); patterns: "
     "wildcard, literal, variable, tuple, enum variant `:some(p)`, array `[a b]` `[a … z]` `[h | t]` (array items are "
-    "wildcard/literal/variable)",
-    "ONLY comparison (2) (differential on the implementation, no model): kind defines, functions with statement bodies, state "
-    "machines, match / tables / comprehensions nested inside expressions, trailing comments, tuple destructuring, "
+    "wildcard/literal/variable); THIRD ROUND (Model/Fmt3.v): state-machine specifications (inputs and state variables "
+    "`x<k>` / `x`, optional output kind, states with or without variables), implementations (start value; arms = state "
+    "pattern + transitions `-> p` `=> p` `~> p`, or state pattern + guards `├ cond -> …`; patterns = wildcard / expression "
+    "(formula or range that does not begin with `(` `[` `:name(` and contains no instance) / tuple / tuple-struct / array "
+    "with literal-variable-wildcard items; value positions without wildcard and spread/rest), instance expressions "
+    "`#m` `#m(a, k: b)` (arguments not themselves instances) in the `expression` positions listed in the RULE",
+    "ONLY comparison (2) (differential on the implementation, no model): kind defines, functions with statement bodies, "
+    "state-machine comment arms / statement transitions `-> x = 1` / code-block transitions / pipes with transitions "
+    "`#m(1) -> :S`, match / tables / comprehensions nested inside expressions, trailing comments, tuple destructuring, "
     "option/set/map/tuple/record/table kinds, "
     "scientific / negative-imaginary literals, strings with escapes, raw strings, swizzles, brace subscripts, all Mechdown prose",
     "the Coq theorems are at token level: blanks/newlines are tokens, the text is the concatenation of token texts "
     "(C08_symbols_unambiguous: distinct symbols have distinct texts); that the real grapheme-level nom parser reads the "
     "canonical text back as these tokens is covered by comparison (2) only (lexical side conditions ident_ok/num_ok/str_ok "
-    "are checked by the judge on every modelled case; the one known lexical clash, `x.a,y`, is the class comma-swizzle)",
+    "are checked by the judge on every modelled case; the known lexical clashes are classes recognised on the tree: "
+    "comma-swizzle `x.a,y`, table-row-reads-as-record, map-keys-read-as-record, table-cell-or, array-pattern-item-then-"
+    "wildcard `[a * b]`, fsm-guard-arrow-reads-as-assignment `-> a =:= b`)",
+    "inputs that expose a defect class are generated only while the class id is listed in known-findings.json (an unlisted "
+    "kf verdict is an alarm): array patterns with a wildcard after an item are then written `[a, *, b]`, an output after "
+    "`-> target` inside a guard `⇒`; the class predicates and the judge do not depend on the listing",
     "a modelled case is `ok` only if the formatter's text is exactly the canonical text of the model and the implementation "
     "re-parses it to the same tree and re-formats it to the same text; inside a defect class the verdict (kf id) requires "
     "the text to be exactly the text the model of formatter.rs predicts (or the panic it predicts) and a failed round trip; "
@@ -96,13 +130,29 @@ NUMS = ["0", "1", "2", "7", "42", "100", "3.14", "0.5", "10.25", "0xFF", "0b101"
         "5u8", "12u64", "1+2i", "5i", "1.5+2.5i"]
 STRS = ["", "a", "hello", "Hello World", "a b  c", "x=1;", "[1 2]", "it's", "ünï", "100%"]
 ATOMS = ["a", "red", "ok", "Foo", "my-atom"]
+MACHINES = ["Counter", "Door", "bubble-sort", "m1", "Fib", "traffic/light"]
+STATES = ["Start", "Count", "Done", "Open", "Closed", "Pass", "s1", "next-state"]
 COMMENTS = [" a comment", " note: x = 1, y.", "", "x", "  two  spaces ", " TODO (later)", " it's 100", " A;B"]
 
 
 class G:
     """random trees; clean=True avoids every construct of a known model-level defect class"""
-    def __init__(self, rng, clean=False, jagged_p=0.0, ext=False):
-        self.rng = rng; self.clean = clean; self.jagged_p = jagged_p; self.ext = ext
+    def __init__(self, rng, clean=False, jagged_p=0.0, ext=False, fsm=False):
+        self.rng = rng; self.clean = clean; self.jagged_p = jagged_p; self.ext = ext; self.fsm = fsm
+
+    def xf(self, d):
+        """an `expression` position of the grammar: a state-machine instance is allowed here (fsm stream only)"""
+        if self.fsm and self.rng.random() < 0.12: return self.fsm_inst(d)
+        return self.expr(d)
+
+    def fsm_inst(self, d):
+        r = self.rng
+        nm = r.choice(MACHINES)
+        if r.random() < 0.12: return ("fsm", nm, None)
+        args = []
+        for _ in range(r.choice([0, 1, 1, 1, 2, 3])):
+            args.append((r.choice(FIELDS) if r.random() < 0.2 else None, self.expr(max(d - 1, 0))))
+        return ("fsm", nm, args)
 
     def kind(self, p=0.3):
         r = self.rng
@@ -151,9 +201,9 @@ class G:
         if t < 0.42: return self.var()
         if t < 0.52: return ("paren", self.formula(d - 1))
         if t < 0.64: return self.mat(d)
-        if t < 0.70: return ("set", [self.expr(d - 1) for _ in range(r.choice([0, 1, 2, 3]))])
-        if t < 0.76: return ("tup", [self.expr(d - 1) for _ in range(r.choice([0, 2, 2, 3]))])
-        if t < 0.82: return ("rec", [(f, self.kind(0.3), self.expr(d - 1)) for f in r.sample(FIELDS, r.choice([1, 2, 3]))])
+        if t < 0.70: return ("set", [self.xf(d - 1) for _ in range(r.choice([0, 1, 2, 3]))])
+        if t < 0.76: return ("tup", [self.xf(d - 1) for _ in range(r.choice([0, 2, 2, 3]))])
+        if t < 0.82: return ("rec", [(f, self.kind(0.3), self.xf(d - 1)) for f in r.sample(FIELDS, r.choice([1, 2, 3]))])
         if self.ext and t < 0.86: return self.map_(d)
         if self.ext and t < 0.89: return self.tups(d)
         if t < 0.92: return self.call(d)
@@ -174,11 +224,11 @@ class G:
         r = self.rng
         nr = r.choice([0, 1, 1, 1, 1, 1]) if self.clean else r.choice([0, 1, 1, 1, 2, 2, 3, 4])
         nc = r.choice([1, 2, 3, 4])
-        rows = [[self.expr(d - 1) for _ in range(nc)] for _ in range(nr)]
+        rows = [[self.xf(d - 1) for _ in range(nc)] for _ in range(nr)]
         if nr >= 2 and r.random() < self.jagged_p:
             i = r.randrange(1, nr)
             if r.random() < 0.5 and nc > 1: rows[i] = rows[i][:-1]
-            else: rows[i].append(self.expr(d - 1))
+            else: rows[i].append(self.xf(d - 1))
         return ("mat", rows)
 
     def call(self, d):
@@ -187,7 +237,7 @@ class G:
         args = []
         for _ in range(n):
             nm = r.choice(FIELDS) if (not self.clean and r.random() < 0.3) else None
-            args.append((nm, self.expr(d - 1)))
+            args.append((nm, self.xf(d - 1)))
         return ("call", r.choice(FUNS), args)
 
     def subs(self, d):
@@ -218,10 +268,10 @@ class G:
         for i in range(n):
             k = self.lit() if r.random() < 0.6 else self.formula(d - 1)
             if i == 0 and k[0] == "var": k = self.lit()
-            ms.append((k, self.expr(d - 1)))
+            ms.append((k, self.xf(d - 1)))
         return ("map", ms)
 
-    def tups(self, d): return ("tups", self.rng.choice(ATOMS), self.expr(d - 1))
+    def tups(self, d): return ("tups", self.rng.choice(ATOMS), self.xf(d - 1))
 
     def pitem(self):
         r = self.rng; t = r.random()
@@ -304,6 +354,122 @@ class G:
         rh = self.rhs(d)
         return ("expr", rh)
 
+    # ---- third round: state machines
+    def fvar(self, p=0.7): return (self.rng.choice(IDENTS + ["n", "acc", "steps"]), self.kind(p))
+
+    def fsm_spec(self, nm=None):
+        r = self.rng
+        ins = [self.fvar(0.8) for _ in range(r.choice([0, 1, 1, 2, 3]))]
+        out = self.kind(1.0) if r.random() < 0.85 else None
+        sts = []
+        for s in r.sample(STATES, r.choice([1, 2, 2, 3, 4])):
+            sts.append((s, None if r.random() < 0.25 else [self.fvar(0.8) for _ in range(r.choice([1, 1, 2, 3]))]))
+        return ("fsmspec", nm or r.choice(MACHINES), ins, out, sts)
+
+    def fleaf(self, d):
+        """an expression as a pattern: must not begin like a tuple / array / tuple-struct pattern, contains no instance"""
+        g = G(self.rng, clean=self.clean, ext=self.ext, fsm=False)
+        for _ in range(40):
+            e = g.expr(d) if self.rng.random() < 0.6 else (g.var() if self.rng.random() < 0.6 else g.lit())
+            txt = R(self.rng, 0.0).e(e)
+            if txt[0] in "([*#": continue
+            if re.match(r":[^\s(<]*\(", txt): continue
+            return ("fe", e)
+        return ("fe", g.var())
+
+    def fitem(self, val):
+        while True:
+            i = self.pitem()
+            if not (val and i[0] == "pw"): return i
+
+    def fpat(self, val, d=2, ed=1):
+        r = self.rng; t = r.random()
+        if not val and t < 0.08: return ("fw",)
+        if d <= 0 or t < 0.55: return self.fleaf(ed)
+        if t < 0.65: return ("ft", [self.fpat(val, d - 1, ed) for _ in range(r.choice([1, 2, 2, 3]))])
+        if t < 0.82: return ("fs", r.choice(STATES), [self.fpat(val, d - 1, ed) for _ in range(r.choice([1, 1, 2, 3]))])
+        pre = [self.fitem(val) for _ in range(r.choice([0, 1, 1, 2, 3]))]
+        u = r.random()
+        if val or u < 0.35: tl = ("none", [])
+        elif u < 0.7: tl = ("spread", [self.fitem(val) for _ in range(r.choice([0, 0, 1, 2]))])
+        else: tl = ("rest", [self.fitem(val)])
+        return ("fa", pre, tl)
+
+    def state_pat(self, val, ed=1):
+        """the usual shape: :State(p, q) or a bare atom :State"""
+        r = self.rng
+        if r.random() < 0.15: return ("fe", ("lit", "atom", r.choice(STATES), None))
+        return ("fs", r.choice(STATES), [self.fpat(val, 1, ed) for _ in range(r.choice([1, 1, 2, 3]))])
+
+    def trans(self):
+        r = self.rng; t = r.random()
+        k = "next" if t < 0.6 else ("out" if t < 0.92 else "async")
+        p = self.state_pat(True) if (k != "out" and r.random() < 0.85) else self.fpat(True, 2)
+        return (k, p)
+
+    def transs(self): return [self.trans() for _ in range(self.rng.choice([1, 1, 1, 1, 2, 3]))]
+
+    def cond(self, last):
+        r = self.rng
+        if last and r.random() < 0.5: return ("fw",)
+        if r.random() < 0.7:
+            g = G(r, clean=self.clean, ext=self.ext)
+            lvl = r.choice([2, 2, 2, 1])
+            ops = [o for o in BY_LEVEL[lvl] if not (self.clean and o in DEFECT_OPS)]
+            return ("fe", ("term", ("var", r.choice(IDENTS), None), [(r.choice(ops), g.formula(1, lvl + 1))]))
+        return self.fpat(False, 1)
+
+    def arm(self):
+        r = self.rng
+        p = self.state_pat(False) if r.random() < 0.85 else self.fpat(False, 2)
+        if r.random() < 0.55: return ("arm", p, self.transs())
+        n = r.choice([1, 2, 2, 3])
+        return ("garm", p, [(self.cond(i + 1 == n and n > 1), self.gtranss()) for i in range(n)])
+
+    def gtranss(self):
+        """the transitions of a guard: `-> x =:= y` has no source spelling but `≡` (fixed cases only); `-> x ⇒ e` exposes the
+        finding fsm-guard-arrow-reads-as-assignment and is generated once that is listed"""
+        while True:
+            ts = self.transs()
+            if any(k == "next" and p[0] == "fe" and lead_eq(p[1]) for k, p in ts): continue
+            # (only in programs without the constructs of the first-round classes: formatter.rs no longer has those defects, so
+            #  the model of formatter.rs predicts another text for them and a mixed program would match neither text)
+            if not (GUARDASSIGN and self.clean) and any(a[0] == "next" and is_target(a[1]) and b[0] == "out" for a, b in zip(ts, ts[1:])): continue
+            return ts
+
+    def fsm_impl(self, nm=None, ins=None):
+        r = self.rng
+        if ins is None: ins = [self.fvar(0.3) for _ in range(r.choice([0, 1, 1, 2, 3]))]
+        start = self.state_pat(True) if r.random() < 0.85 else self.fpat(True, 2)
+        return ("fsmimpl", nm or r.choice(MACHINES), ins, start, [self.arm() for _ in range(r.choice([1, 2, 2, 3, 4]))])
+
+    def fsm_prog(self, d):
+        """specification + implementation + an instance, mixed with other statements"""
+        r = self.rng
+        nm = r.choice(MACHINES)
+        spec = self.fsm_spec(nm)
+        impl = self.fsm_impl(nm, spec[2] if r.random() < 0.7 else None)
+        inst = self.fsm_inst(d)
+        inst = ("fsm", nm, inst[2])
+        use = ("expr", inst) if r.random() < 0.5 else ("def", False, r.choice(IDENTS), self.kind(0.2), inst)
+        stmts = []
+        if r.random() < 0.3: stmts.append(self.stmt(d))
+        if r.random() < 0.85: stmts.append(spec)
+        if r.random() < 0.15: stmts.append(("com", r.choice(COMMENTS)))
+        if r.random() < 0.9: stmts.append(impl)
+        if r.random() < 0.25: stmts.append(self.stmt2(d) if self.ext and r.random() < 0.5 else self.stmt(d))
+        if r.random() < 0.85: stmts.append(use)
+        if not stmts: stmts.append(impl)
+        return stmts
+
+    def stmtF(self, d):
+        """a first-round statement whose right-hand side may be (or contain) an instance"""
+        r = self.rng; t = r.random()
+        if t < 0.5: return ("def", r.random() < 0.25, r.choice(IDENTS), self.kind(0.35), self.xf(d))
+        if t < 0.62: return ("asg", r.choice(IDENTS), self.subs(d) if r.random() < 0.6 else [], self.xf(d))
+        if t < 0.74: return ("opasg", self.subs(d) if r.random() < 0.5 else [], r.choice(IDENTS), r.choice(list(AOPS)), self.xf(d))
+        return ("expr", self.xf(d))
+
     def stmt(self, d):
         r = self.rng; t = r.random()
         if t < 0.5: return ("def", r.random() < 0.25, r.choice(IDENTS), self.kind(0.35), self.expr(d))
@@ -337,7 +503,23 @@ def e_sx(e):
     if t == "all": return ["all"]
     if t == "range": return ["range", e_sx(e[1]), 1 if e[2] else 0, e_sx(e[3])]
     if t == "rangei": return ["rangei", e_sx(e[1]), 1 if e[2] else 0, e_sx(e[3]), 1 if e[4] else 0, e_sx(e[5])]
+    if t == "fsm":
+        if e[2] is None: return ["fsm", q(e[1])]
+        return ["fsmc", q(e[1])] + [(["arg", e_sx(x)] if n is None else ["named", q(n), e_sx(x)]) for n, x in e[2]]
     raise ValueError(t)
+
+
+def f_sx(p):
+    t = p[0]
+    if t == "fw": return ["fw"]
+    if t == "fe": return ["fe", e_sx(p[1])]
+    if t == "ft": return ["ft"] + [f_sx(x) for x in p[1]]
+    if t == "fs": return ["fs", q(p[1])] + [f_sx(x) for x in p[2]]
+    return ["fa", [i_sx(x) for x in p[1]], [p[2][0]] + [i_sx(x) for x in p[2][1]]]
+
+
+def t_sx(ts): return [[k, f_sx(p)] for k, p in ts]
+def v_sx(v): return ["v", q(v[0]), k_sx(v[1])]
 
 
 def i_sx(p):
@@ -377,6 +559,15 @@ def s_sx(s):
     if t == "opasg": return ["opasg", [e_sx(x) for x in s[1]], q(s[2]), s[3], r_sx(s[4])]
     if t == "com": return ["com", q(s[1])]
     if t == "enum": return ["enum", q(s[1])] + [["v", q(a), k_sx(k)] for a, k in s[2]]
+    if t == "fsmspec":
+        return ["fsmspec", q(s[1]), ["ins"] + [v_sx(v) for v in s[2]], k_sx(s[3]),
+                ["states"] + [(["st", q(n)] if vs is None else ["stv", q(n)] + [v_sx(v) for v in vs]) for n, vs in s[4]]]
+    if t == "fsmimpl":
+        arms = []
+        for a in s[4]:
+            if a[0] == "arm": arms.append(["arm", f_sx(a[1])] + t_sx(a[2]))
+            else: arms.append(["garm", f_sx(a[1])] + [["g", f_sx(c)] + t_sx(ts) for c, ts in a[2]])
+        return ["fsmimpl", q(s[1]), ["ins"] + [v_sx(v) for v in s[2]], f_sx(s[3])] + arms
     if t == "fun": return ["fun", q(s[1]), ["args"] + [["a", q(x), k_sx(k)] for x, k in s[2]], k_sx(s[3])] + [["arm", p_sx(p), e_sx(x)] for p, x in s[4]]
     return ["expr", r_sx(s[1])]
 
@@ -464,7 +655,67 @@ class R:
         if t == "all": return ":"
         if t == "range": return self.e(e[1]) + ("..=" if e[2] else "..") + self.e(e[3])
         if t == "rangei": return self.e(e[1]) + ("..=" if e[2] else "..") + self.e(e[3]) + ("..=" if e[4] else "..") + self.e(e[5])
+        if t == "fsm":
+            if e[2] is None: return "#" + e[1]
+            sep = "," if (self.vary() and not adjacent_swizzle([x for _, x in e[2]])) else ", "
+            return "#" + e[1] + "(" + sep.join((n + ": " if n else "") + self.e(x) for n, x in e[2]) + ")"
         raise ValueError(t)
+
+    # ---- state machines
+    def fsep(self, ps):
+        """`x.a,y` is a swizzle: a bare comma only where the neighbours cannot form one"""
+        es = [p[1] if p[0] == "fe" else ("lit", "num", "0", None) for p in ps]
+        return "," if (self.vary() and not adjacent_swizzle(es)) else ", "
+
+    def fp(self, p):
+        t = p[0]
+        if t == "fw": return "*"
+        if t == "fe": return self.e(p[1])
+        if t == "ft": return "(" + self.osp() + self.fsep(p[1]).join(self.fp(x) for x in p[1]) + self.osp() + ")"
+        if t == "fs": return ":" + p[1] + "(" + self.osp() + self.fsep(p[2]).join(self.fp(x) for x in p[2]) + self.osp() + ")"
+        return "[" + self.osp() + self.arr(p[1], p[2], True) + self.osp() + "]"
+
+    def tr(self, ts, guard=False):
+        out = ""; prev = None
+        for k, p in ts:
+            if k == "next": op = "→" if self.vary() else "->"
+            elif k == "out":
+                op = "⇒" if self.vary() else "=>"
+                # in a guard `-> x => e` is read as the assignment `x = > e`: only the spelling `⇒` denotes the output
+                if guard and prev is not None and prev[0] == "next" and is_target(prev[1]): op = "⇒"
+            else: op = "~>"
+            out += self.sp() + op + self.sp() + self.fp(p)
+            prev = (k, p)
+        return out
+
+    def fv(self, v): return v[0] + self.k(v[1])
+
+    def fsm(self, s):
+        r = self.rng; t = s[0]
+        head = "#" + s[1] + "(" + (", " if not self.vary() else ",").join(self.fv(v) for v in s[2]) + ")"
+        if t == "fsmspec":
+            ind = r.choice(["  ", "    ", "\t"]) if self.v > 0 else "    "
+            out = head
+            if s[3] is not None: out += self.sp() + ("=>" if self.vary() else "⇒") + self.sp() + self.k(s[3])
+            if self.v == 0 or r.random() < 0.5: out += self.sp() + ":="
+            n = len(s[4])
+            for i, (nm, vs) in enumerate(s[4]):
+                br = r.choice(["|", "│", "├" if i + 1 < n else "└"]) if self.v > 0 else ("├" if i + 1 < n else "└")
+                out += "\n" + ind + br + self.sp() + ":" + nm
+                if vs is not None: out += "(" + (", " if not self.vary() else ",").join(self.fv(v) for v in vs) + ")"
+            return out + "."
+        out = head + self.sp() + ("→" if self.vary() else "->") + self.sp() + self.fp(s[3])
+        ind = r.choice(["  ", "    ", " "]) if self.v > 0 else "  "
+        for a in s[4]:
+            out += "\n" + ind + self.fp(a[1])
+            if a[0] == "arm": out += self.tr(a[2])
+            else:
+                n = len(a[2])
+                for i, (c, ts) in enumerate(a[2]):
+                    if self.v > 0: br = r.choice(["|", "│", "├" if i + 1 < n else "└"])
+                    else: br = "├" if (i == 0 or i + 1 < n) else "└"
+                    out += "\n" + ind + ind + br + self.sp() + self.fp(c) + self.tr(ts, True)
+        return out + "."
 
     def i(self, p):
         if p[0] == "pw": return "*"
@@ -476,10 +727,24 @@ class R:
         if t in ("pw", "pl", "pv"): return self.i(p)
         if t == "pt": return "(" + (", " if not self.vary() else ",").join(self.p(x) for x in p[1]) + ")"
         if t == "ps": return ":" + p[1] + "(" + (", " if not self.vary() else ",").join(self.p(x) for x in p[2]) + ")"
-        parts = [self.i(x) for x in p[1]]
-        if p[2][0] == "spread": parts += ["..." if self.vary() else "…"] + [self.i(x) for x in p[2][1]]
-        elif p[2][0] == "rest": parts += ["|", self.i(p[2][1][0])]
-        return "[" + " ".join(parts) + "]"
+        return "[" + self.arr(p[1], p[2], False) + "]"
+
+    def arr(self, pre, tl, commas):
+        """the parts of an array pattern.  `a * b` is a product: a wildcard after an item is written `a, *` (once the
+        finding array-pattern-item-then-wildcard is listed; before that the text is left as the formatter prints it)"""
+        ps = arr_parts(pre, tl)
+        out = ""
+        for j, x in enumerate(ps):
+            if x[0] == "ell": t = "..." if self.vary() else "…"
+            elif x[0] == "bar": t = "|"
+            else: t = self.i(x)
+            if j > 0:
+                a = ps[j - 1]
+                if a[0] in ("pl", "pv") and x[0] == "pw": out += ", " if ARRWILD else " "
+                elif commas and a[0] in ("pl", "pv") and x[0] in ("pl", "pv") and self.vary(): out += ", "
+                else: out += " "
+            out += t
+        return out
 
     def r(self, e):
         t = e[0]; r = self.rng
@@ -519,6 +784,7 @@ class R:
         if t == "opasg": return s[2] + "".join(self.e(x) for x in s[1]) + self.sp() + AOPS[s[3]] + self.sp() + self.r(s[4])
         if t == "com": return "--" + s[1]
         if t == "enum": return "<" + s[1] + ">" + self.sp() + ":=" + self.sp() + (" | " if not self.vary() else "|").join(":" + a + self.k(k) for a, k in s[2])
+        if t in ("fsmspec", "fsmimpl"): return self.fsm(s)
         if t == "fun":
             out = s[1] + "(" + (", " if not self.vary() else ",").join(x + self.k(k) for x, k in s[2]) + ") => " + self.k(s[3])
             n = len(s[4])
@@ -537,6 +803,53 @@ class R:
         return out
 
 
+def _walk(x):
+    """all tuples inside a generated tree"""
+    if isinstance(x, tuple):
+        yield x
+        for y in x:
+            for z in _walk(y): yield z
+    elif isinstance(x, list):
+        for y in x:
+            for z in _walk(y): yield z
+
+
+def arr_parts(pre, tl):
+    parts = list(pre)
+    if tl[0] == "spread": parts += [("ell",)] + list(tl[1])
+    elif tl[0] == "rest": parts += [("bar",)] + list(tl[1])
+    return parts
+
+
+def has_arrwild(stmts):
+    """an array pattern in which a wildcard directly follows a literal / variable item: printed `[a * b]` = a product"""
+    for t in _walk(stmts):
+        if t and t[0] in ("pa", "fa") and len(t) == 3 and isinstance(t[1], list):
+            ps = arr_parts(t[1], t[2])
+            for a, b in zip(ps, ps[1:]):
+                if a[0] in ("pl", "pv") and b[0] == "pw": return True
+    return False
+
+
+def lead_eq(e):
+    if e[0] == "term": return (e[1][0] in ("var", "slice") and (e[1][0] == "slice" or e[1][2] is None) and e[2][0][0] in ("seq", "sneq")) or lead_eq(e[1])
+    if e[0] in ("range", "rangei"): return lead_eq(e[1])
+    return False
+
+
+def is_target(p):
+    return p[0] == "fe" and ((p[1][0] == "var" and p[1][2] is None) or p[1][0] == "slice")
+
+
+def has_guard_next_out(stmts):
+    for t in _walk(stmts):
+        if t and t[0] == "garm":
+            for c, ts in t[2]:
+                for a, b in zip(ts, ts[1:]):
+                    if a[0] == "next" and is_target(a[1]) and b[0] == "out": return True
+    return False
+
+
 def table_rhs(st):
     """the statement's right-hand side is a table literal (its text ends with `|`) / the statement is a bare table"""
     return any(isinstance(x, tuple) and x and x[0] == "table" for x in st)
@@ -553,7 +866,10 @@ def model_case(stmts, rng, v, stream):
         keep.append(st)
     stmts = keep
     src = R(rng, v).prog(stmts)
-    return dict(sx=sx(["prog"] + [s_sx(s) for s in stmts]), impl=dict(src=src), tags=dict(stream=stream))
+    tags = dict(stream=stream)
+    if has_arrwild(stmts): tags["cls"] = "arrwild"
+    elif has_guard_next_out(stmts): tags["cls"] = "guard-next-out"
+    return dict(sx=sx(["prog"] + [s_sx(s) for s in stmts]), impl=dict(src=src), tags=tags)
 
 
 def fixed_model_cases(rng):
@@ -612,6 +928,99 @@ def fixed_ext_cases(rng):
         one([("expr", ("compr", False, vb, [("gen", ("pv", "a", None), ("var", "s", None)), ("let", "b", None, ("term", va, [("mul", n2)]))]))], v)
         one([("expr", ("compr", True, ("term", va, [("mul", n2)]), [("gen", ("pv", "a", None), ("mat", [[n1, n2, n1]]))]))], v)
         one([("def", False, "q", None, ("compr", False, ("tup", [va, vb]), [("gen", ("pv", "a", None), ("var", "s", None)), ("gen", ("pv", "b", None), ("var", "t", None))]))], v)
+    return out
+
+
+def fixed_fsm_cases(rng):
+    """the state machines of docs/reference/state-machine.mec and tests/interpreter.rs as trees, plus corner cases"""
+    u = lambda s: ("lit", "num", s, None)
+    V = lambda x: ("var", x, None)
+    fe = lambda e: ("fe", e)
+    S = lambda n, *ps: ("fs", n, [(p if isinstance(p, tuple) and p and p[0] in ("fw", "fe", "ft", "fs", "fa") else fe(p)) for p in ps])
+    k64 = ("ks", "u64"); km64 = ("km", "u64", [])
+    gt = lambda a, b: ("term", a, [("gt", b)]); eq = lambda a, b: ("term", a, [("eq", b)]); lt = lambda a, b: ("term", a, [("lt", b)])
+    sub = lambda a, b: ("term", a, [("sub", b)]); add = lambda a, b: ("term", a, [("add", b)])
+    n, a, b = V("n"), V("a"), V("b")
+    out = []
+    def one(st, v=0.0): out.append(model_case(st, rng, v, "model-fsm-fixed"))
+    counter = [
+        ("fsmspec", "Counter", [("n", k64)], k64, [("Count", [("n", k64)]), ("Done", [("n", k64)])]),
+        ("fsmimpl", "Counter", [("n", k64)], S("Count", n),
+         [("garm", S("Count", n), [(fe(gt(n, u("0u64"))), [("next", S("Count", sub(n, u("1u64"))))]),
+                                    (fe(eq(n, u("0u64"))), [("next", S("Done", u("0u64")))])]),
+          ("arm", S("Done", n), [("out", fe(n))])]),
+        ("expr", ("fsm", "Counter", [(None, u("5u64"))]))]
+    fib = [
+        ("fsmspec", "Fibonacci", [("n", k64)], k64, [("Compute", [("n", k64), ("a", k64), ("b", k64)]), ("Done", [("n", k64)])]),
+        ("fsmimpl", "Fibonacci", [("n", k64)], S("Compute", n, u("0u64"), u("1u64")),
+         [("garm", S("Compute", n, a, b), [(fe(gt(n, u("0u64"))), [("next", S("Compute", sub(n, u("1u64")), b, add(a, b)))]),
+                                            (fe(eq(n, u("0u64"))), [("next", S("Done", a))])]),
+          ("arm", S("Done", n), [("out", fe(n))])]),
+        ("expr", ("fsm", "Fibonacci", [(None, u("10u64"))]))]
+    door = [
+        ("fsmspec", "Door", [("n", k64)], k64, [("Closed", [("n", k64)]), ("Open", [("n", k64)]), ("Locked", [("n", k64)])]),
+        ("fsmimpl", "Door", [("n", k64)], S("Closed", n),
+         [("arm", S("Closed", n), [("next", S("Locked", n))]), ("arm", S("Locked", n), [("next", S("Open", n))]), ("arm", S("Open", n), [("out", fe(n))])]),
+        ("expr", ("fsm", "Door", [(None, u("1u64"))]))]
+    arr, acc, swaps, tail, x = V("arr"), V("acc"), V("swaps"), V("tail"), V("x")
+    pv = lambda nm: ("pv", nm, None)
+    A = lambda pre, tl=("none", []): ("fa", pre, tl)
+    bubble = [
+        ("fsmspec", "bubble-sort", [("arr", km64)], km64,
+         [("Start", [("arr", km64)]), ("Pass", [("arr", km64), ("acc", km64), ("swaps", k64)]), ("Next", [("arr", km64), ("swaps", k64)]),
+          ("Reverse", [("arr", km64), ("acc", km64), ("swaps", k64)]), ("Done", [("arr", km64)])]),
+        ("fsmimpl", "bubble-sort", [("arr", None)], S("Start", arr),
+         [("arm", S("Start", arr), [("next", S("Pass", arr, A([]), u("0u64")))]),
+          ("garm", S("Pass", A([pv("a"), pv("b")], ("rest", [pv("tail")])), acc, swaps),
+           [(fe(gt(a, b)), [("next", S("Pass", A([pv("a"), pv("tail")]), A([pv("b"), pv("acc")]), add(swaps, u("1u64"))))]),
+            (("fw",), [("next", S("Pass", A([pv("b"), pv("tail")]), A([pv("a"), pv("acc")]), swaps))])]),
+          ("arm", S("Pass", A([pv("x")]), acc, swaps), [("next", S("Next", A([pv("x"), pv("acc")]), swaps))]),
+          ("arm", S("Pass", A([]), acc, swaps), [("next", S("Next", acc, swaps))]),
+          ("arm", S("Next", arr, swaps), [("next", S("Reverse", arr, A([]), swaps))]),
+          ("arm", S("Reverse", A([pv("x")], ("rest", [pv("tail")])), acc, swaps), [("next", S("Reverse", tail, A([pv("x"), pv("acc")]), swaps))]),
+          ("arm", S("Reverse", A([]), acc, u("0u64")), [("next", S("Done", acc))]),
+          ("arm", S("Reverse", A([]), acc, swaps), [("next", S("Pass", acc, A([]), u("0u64")))]),
+          ("arm", S("Done", arr), [("out", fe(arr))])]),
+        ("def", False, "y", None, ("fsm", "bubble-sort", [(None, x)]))]
+    vec = [
+        ("fsmimpl", "VecFsm", [("n", k64)], S("Scan", A([("pl", "num", "1u64", None), ("pl", "num", "2u64", None), ("pl", "num", "3u64", None)])),
+         [("arm", S("Scan", A([pv("x")], ("spread", [pv("y")]))), [("next", S("Done", add(x, V("y"))))]),
+          ("arm", S("Start", A([pv("x")], ("spread", []))), [("next", S("Done", x))]),
+          ("arm", S("Done", V("out")), [("out", fe(V("out")))])])]
+    lo, hi = V("lo"), V("hi")
+    clamp = [
+        ("fsmimpl", "Clamp", [("n", k64), ("lo", k64), ("hi", k64)], S("Check", n, lo, hi),
+         [("garm", S("Check", n, lo, hi), [(fe(lt(n, lo)), [("next", S("Done", lo))]), (fe(gt(n, hi)), [("next", S("Done", hi))]),
+                                            (fe(n), [("next", S("Done", n))])]),
+          ("arm", S("Done", V("out")), [("out", fe(V("out")))])])]
+    corner = [
+        [("fsmspec", "A", [], None, [("T", None)])],
+        [("fsmspec", "A", [("x", None)], ("ks", "u8"), [("S", None), ("T", [("x", None)])])],
+        [("fsmimpl", "A", [], fe(("lit", "atom", "S", None)), [("arm", fe(("lit", "atom", "S", None)), [("next", fe(("lit", "atom", "T", None)))]),
+                                                               ("arm", fe(("lit", "atom", "T", None)), [("out", fe(u("1")))])])],
+        [("fsmimpl", "A", [("x", None)], fe(x), [("arm", fe(x), [("next", ("ft", [fe(x), fe(u("1"))]))]), ("arm", ("ft", [fe(a), fe(b)]), [("out", fe(a))])])],
+        [("fsmimpl", "A", [("x", None)], S("S", x), [("garm", S("S", x), [(fe(gt(x, u("0"))), [("out", fe(x))])]), ("arm", S("T", x), [("out", fe(x))])])],
+        [("fsmimpl", "A", [("x", None)], S("S", x), [("arm", S("S", x), [("next", S("T", x)), ("out", fe(x))]), ("garm", S("T", x), [(fe(gt(x, u("0"))), [("out", fe(x))])])])],
+        [("fsmimpl", "A", [("x", None)], S("S", x), [("garm", S("S", x), [(fe(gt(x, u("0"))), [("next", S("T", x)), ("out", fe(x))]), (("fw",), [("async", S("S", x))])]),
+                                                     ("garm", S("T", ("fw",)), [(fe(gt(x, u("0"))), [("out", fe(x))]), (fe(lt(x, u("0"))), [("out", fe(u("0")))]), (("fw",), [("out", fe(u("1")))])])])],
+        [("expr", ("fsm", "A", None))], [("expr", ("fsm", "A", []))], [("def", True, "y", ("ks", "u8"), ("fsm", "A", [("x", u("1")), (None, u("2"))]))],
+        [("expr", ("mat", [[("fsm", "A", [(None, u("1"))]), ("fsm", "B", None)]]))], [("expr", ("call", "f", [(None, ("fsm", "A", [(None, u("1"))])), (None, u("2"))]))],
+        [("expr", ("set", [("fsm", "A", [(None, u("1"))]), u("2")]))], [("expr", ("tup", [("fsm", "A", [(None, u("1"))]), u("2")]))],
+        [("expr", ("rec", [("a", None, ("fsm", "A", [(None, u("1"))]))]))], [("expr", ("map", [(("lit", "str", "k", None), ("fsm", "A", [(None, u("1"))]))]))],
+        [("expr", ("tups", "ok", ("fsm", "A", [(None, u("1"))])))], [("asg", "x", [], ("fsm", "A", [(None, u("1"))]))], [("opasg", [], "x", "add", ("fsm", "A", [(None, u("1"))]))],
+    ]
+    for v in (0.0, 1.0):
+        for st in (counter, fib, door, bubble, vec, clamp): one(st, v)
+        for st in corner: one(st, v)
+    if GUARDASSIGN:
+        for v in (0.0, 1.0):
+            one([("fsmimpl", "A", [("x", None)], S("S", x), [("garm", S("T", x), [(fe(gt(V("z"), u("1"))), [("next", fe(V("A"))), ("out", fe(u("1")))]), (("fw",), [("out", fe(u("1")))])])])], v)
+            one([("fsmimpl", "A", [("x", None)], S("S", x), [("garm", S("T", x), [(fe(gt(V("z"), u("1"))), [("next", fe(("slice", "A", [("brk", [u("1")])]))), ("out", fe(u("1"))), ("next", fe(V("A"))), ("out", fe(u("2")))])])])], v)
+    if ARRWILD:
+        for v in (0.0, 1.0):
+            one([("fsmimpl", "A", [("x", None)], S("S", x), [("arm", S("S", A([pv("a"), ("pw",), pv("b")])), [("out", fe(a))])])], v)
+            one([("def", False, "y", None, ("match", x, [(("pa", [pv("a"), ("pw",), pv("b")], ("none", [])), None, u("1")), (("pw",), None, u("2"))]))], v)
+            one([("def", False, "y", None, ("match", x, [(("pa", [pv("a"), ("pw",)], ("rest", [pv("t")])), None, u("1")), (("pw",), None, u("2"))]))], v)
     return out
 
 
@@ -817,6 +1226,15 @@ def generate(tier, rng):
         if i % 3 == 0: stmts = [g.stmt2(rng.choice([1, 2, 2, 3]))]
         else: stmts = [(g.stmt2 if rng.random() < 0.6 else g.stmt)(rng.choice([1, 2, 2])) for _ in range(rng.choice([1, 2, 3]))]
         yield model_case(stmts, rng, 0.0 if i % 2 else 0.4, "model-ext")
+    # third-round subset: state machines (specification, implementation, instance expressions)
+    for c in fixed_fsm_cases(rng): yield c
+    for i in range(500 if quick else 9000):
+        g = G(rng, clean=(i % 3 != 2), ext=((i // 2) % 2 == 0), fsm=True)
+        t = i % 4
+        if t < 2: stmts = g.fsm_prog(rng.choice([1, 1, 2]))
+        elif t == 2: stmts = [g.fsm_impl()] if rng.random() < 0.7 else [g.fsm_spec()]
+        else: stmts = [g.stmtF(rng.choice([1, 2, 2])) for _ in range(rng.choice([1, 2, 3]))]
+        yield model_case(stmts, rng, 0.0 if i % 2 else 0.4, "model-fsm")
     # whole grammar, grammar-based: every item alone, then combinations of two or three items in one program
     for rep in range(3 if quick else 40):
         items = gen_items(rng)
